@@ -243,6 +243,18 @@ def _make_public_contract(fn, name):
                     except Exception:
                         pass
                     floor = 1e-10 * amax
+                    if name in HERMITIAN:
+                        # never stricter than the owning check (C08: 1e-9 of the natural magnitude sqrt(2T) <= sqrt(11 alpha) of
+                        # the functions, carried through |T| when a transformation is given): a matrix that vanishes by
+                        # symmetry (one centre) is rounding noise of exactly that size (FA29)
+                        tf = 1.0
+                        try:
+                            T_ = _KWARGS.get("transform", _ARGS[1] if len(_ARGS) > 1 else None)
+                            if isinstance(T_, np.ndarray) and T_.ndim == 2 and T_.size:
+                                tf = max(1.0, float(np.abs(T_).max()) ** 2 * T_.shape[1])
+                        except Exception:
+                            pass
+                        floor += 1e-9 * np.sqrt(11.0 * amax) * tf
                     if name == "angular_momentum_integral":
                         # r x p about the coordinate origin: the natural scale of an element is |R| sqrt(2T), so the
                         # rounding noise of a vanishing element grows with the distance of the shells from the origin
